@@ -199,6 +199,85 @@ theorem uniqueVariables_tie : Gen.Compile.uniqueVariables = fun e => some (Ser.L
   | (funext e
      induction e <;> simp [Gen.Compile.uniqueVariables, Ser.LogicalSExpr.uniqueVariables, *] <;> tie_close)
 
+/-! ## the SDD serialiser (src/serialize/ser_sdd.rs)
+
+The Rust starts with `table.get(&reg)` for every pointer (also constants and literals), the model
+looks only nodes up; they agree on every table whose keys are regular node pointers
+(`TieAux.NodeKeys`: what `table.insert` is called with; preserved, `TieAux.serSddAux_nodeKeys`;
+the initial table of `from_sdd` is empty). -/
+
+theorem sddSt_eta (s : Ser.SddSt) : (⟨s.nodes, s.table⟩ : Ser.SddSt) = s := rfl
+
+mutual
+theorem serSddHelper_tie : ∀ (d : Sdd.Ptr) (table : List (Sdd.Ptr × Nat)) (nodes : Array Ser.SddOr), NodeKeys table →
+    Gen.Compile.serSddHelper d table nodes =
+      some ((Ser.serSddAux d ⟨nodes, table⟩).1, (Ser.serSddAux d ⟨nodes, table⟩).2.table,
+        (Ser.serSddAux d ⟨nodes, table⟩).2.nodes)
+  | .tru, table, nodes, h => by
+    first
+    | rfl
+    | (have hn := assocGet_none_of_not_key table .tru h (by simp [IsNodeKey])
+       unfold Gen.Compile.serSddHelper
+       simp [Ser.serSddAux, hn] <;> tie_close)
+  | .fls, table, nodes, h => by
+    first
+    | rfl
+    | (have hn := assocGet_none_of_not_key table .fls h (by simp [IsNodeKey])
+       unfold Gen.Compile.serSddHelper
+       simp [Ser.serSddAux, hn] <;> tie_close)
+  | .lit v p, table, nodes, h => by
+    first
+    | rfl
+    | (have hn := assocGet_none_of_not_key table (.lit v p) h (by simp [IsNodeKey])
+       unfold Gen.Compile.serSddHelper
+       cases p <;> simp [Ser.serSddAux] at hn ⊢ <;> simp [hn] <;> tie_close)
+  | .bdd c l i lo hi, table, nodes, h => by
+    first
+    | rfl
+    | (have ihlo := serSddHelper_tie lo table nodes h
+       have ihhi := serSddHelper_tie hi _ (Ser.serSddAux lo ⟨nodes, table⟩).2.nodes
+         (serSddAux_nodeKeys lo ⟨nodes, table⟩ h)
+       simp only [sddSt_eta] at ihhi
+       unfold Gen.Compile.serSddHelper
+       cases c <;> cases hg : Ser.assocGet table (.bdd false l i lo hi) <;>
+         simp [Ser.serSddAux, hg, ihlo, ihhi] <;> tie_close)
+  | .dec c i es, table, nodes, h => by
+    first
+    | rfl
+    | (have ih := serSddElems_tie es table nodes h
+       unfold Gen.Compile.serSddHelper
+       cases c <;> cases hg : Ser.assocGet table (.dec false i es) <;>
+         simp [Ser.serSddAux, hg, ih] <;> tie_close)
+theorem serSddElems_tie : ∀ (es : List (Sdd.Ptr × Sdd.Ptr)) (table : List (Sdd.Ptr × Nat)) (nodes : Array Ser.SddOr),
+    NodeKeys table →
+    Gen.Compile.serSddHelper_elems es table nodes =
+      some ((Ser.serSddElems es ⟨nodes, table⟩).1, (Ser.serSddElems es ⟨nodes, table⟩).2.table,
+        (Ser.serSddElems es ⟨nodes, table⟩).2.nodes)
+  | [], table, nodes, h => by
+    first
+    | rfl
+    | (unfold Gen.Compile.serSddHelper_elems; simp [Ser.serSddElems] <;> tie_close)
+  | (p, sub) :: rest, table, nodes, h => by
+    first
+    | rfl
+    | (have ihp := serSddHelper_tie p table nodes h
+       have hk1 := serSddAux_nodeKeys p ⟨nodes, table⟩ h
+       have ihs := serSddHelper_tie sub _ (Ser.serSddAux p ⟨nodes, table⟩).2.nodes hk1
+       simp only [sddSt_eta] at ihs
+       have hk2 := serSddAux_nodeKeys sub _ hk1
+       have ihr := serSddElems_tie rest _ (Ser.serSddAux sub (Ser.serSddAux p ⟨nodes, table⟩).2).2.nodes hk2
+       simp only [sddSt_eta] at ihr
+       unfold Gen.Compile.serSddHelper_elems
+       simp [Ser.serSddElems, ihp, ihs, ihr] <;> tie_close)
+end
+
+/-- `SDDSerializer::from_sdd` (the initial table is empty, so the side condition of `serSddHelper_tie` holds) -/
+theorem serSdd_tie : Gen.Compile.serSdd = fun d => some (Ser.serSdd d) := by
+  first
+  | rfl
+  | (funext d
+     simp only [Gen.Compile.serSdd, serSddHelper_tie d [] #[] nodeKeys_nil, Ser.serSdd] <;> tie_close)
+
 end TieCompile
 
 #print axioms TieCompile.compileExpr_tie
@@ -217,3 +296,6 @@ end TieCompile
 #print axioms TieCompile.fromSexpr_tie
 #print axioms TieCompile.eval_tie
 #print axioms TieCompile.uniqueVariables_tie
+#print axioms TieCompile.serSddHelper_tie
+#print axioms TieCompile.serSddElems_tie
+#print axioms TieCompile.serSdd_tie
